@@ -90,7 +90,7 @@ def check_snap(kind, arg):
 
 # -- 3. exactness and type -------------------------------------------------------
 
-DENOMS = (1, 2, 3, 4, 5, 7, 48, 1000)
+DENOMS = (1, 2, 3, 4, 5, 7, 32, 48, 64, 96, 192, 1000)
 RATIONALS = sorted({Fraction(n, d) for n in range(-6, 7) for d in DENOMS})
 OPS = ("+", "-", "*", "/", "%", "divmod")
 
@@ -255,7 +255,10 @@ def check_td(kind, vals, freezes=False):
     for key in ("BPMS", "STOPS", "DELAYS", "WARPS", "OFFSET"):
         v = vals[key]
         if v is not None:
-            k = "FREEZES" if (key == "STOPS" and freezes) else key
+            k = "FREEZES" if (key == "STOPS" and freezes is True) else key
+            if key == "STOPS" and freezes == "both":
+                # a leftover FREEZES next to STOPS: the standard key wins
+                text += "#FREEZES:99.000=9.999;\n"
             text += f"#{k}:{v};\n"
     try:
         sf = (SSCSimfile if kind == "ssc" else SMSimfile)(string=text)
@@ -365,7 +368,7 @@ def explore_shard(acc, shard):
         for combo in itertools.product(*(TD_STRINGS[k] for k in keys)):
             vals = dict(zip(keys, combo))
             vals["BPMS"] = TD_STRINGS["BPMS"][bi]
-            for fz in ((False, True) if sfk == "sm" and vals["STOPS"] is not None else (False,)):
+            for fz in ((False, True, "both") if sfk == "sm" and vals["STOPS"] is not None else (False,)):
                 run_case(acc, "td", {"kind": "td", "sf": sfk, "vals": vals, "freezes": fz})
                 if fz:
                     acc.outcome("SM stops spelled FREEZES")
